@@ -6,7 +6,7 @@ SEM_NOTE = ("Trusted: TLC + spec/Semantics.tla as reference (function-free fragm
 
 CHECKS = {
     "C01": dict(
-        category="model_checking",
+        category="exploration",
         text="Every generated program (stratified, cyclic, ADs, evidence, non-ground queries; plus the propositional "
              "family of all three C02 classes) is run through the real default pipeline and the recorded answers / "
              "error are judged by TLC against the distribution semantics defined in spec/Semantics.tla (exact "
@@ -18,7 +18,7 @@ CHECKS = {
     ),
 }
 
-def _sem(text, ref, technique=None, note=SEM_NOTE, category="model_checking"):
+def _sem(text, ref, technique=None, note=SEM_NOTE, category="exploration"):
     return dict(category=category, text=text, design_ref=ref, note=note,
                 technique=technique or "TLA+ spec (Semantics.tla) evaluated by TLC as reference on recorded implementation runs")
 
@@ -50,6 +50,26 @@ CHECKS.update({
                 "single-query groundings, judged by Semantics.tla and compared with the default pipeline.",
                 "DESIGN.md §5 C08", technique="API-call histories replayed on the real engine + TLA+ Semantics oracle (TLC)"),
 })
+
+CHECKS["C34"] = dict(
+    category="model_checking",
+    text="TLC proves, for every history in bounds, that the concrete representations transcribed from util.py "
+         "(doubly linked list + map, array heap + index with _swim_up/_sink_down, bit blocks) refine the abstract "
+         "models (sequence without duplicates in first-insertion order, map item->key with pop = a minimum, set of "
+         "naturals) - spec/Containers*.tla. The real classes are bound to the spec by trace validation: thousands of "
+         "recorded call histories (bounded-exhaustive + random) are replayed by TLC against the abstract model "
+         "(ContainersTrace.tla, REJECT = violation) and against the concrete model (drift only).",
+    design_ref="DESIGN.md §5 C34",
+    note="Bounds: OrderedSet 4 keys x 2 sets; UHeap 4 items x 4 keys x <=7 ops; BitVector block size 2 in the model "
+         "(32 in the trace spec). Trusted: recording wrapper, JSON transport, TLC.",
+    technique="TLA+ refinement model checking (TLC) + trace validation of recorded executions of the real classes",
+)
+
+CHECKS["C30"] = _sem("Programs with annotations inside, on and outside [0,1] (literal and arithmetic-expression "
+                     "annotations, AD sums 0.9/1.0/1.1+) where the offending atom is queried directly; validity is "
+                     "decided by Semantics!ValidAnnotation in TLC; invalid => InvalidValue expected under both the "
+                     "probability and log-probability semiring, valid (incl. boundary) => C01 numbers.",
+                     "DESIGN.md §5 C30")
 
 NOT_YET = "check not built yet in this round (planned in DESIGN.md §5); not claimed"
 NOT_APPLICABLE = {}
